@@ -16,8 +16,65 @@ BR = "swcgeom.transforms.branch"
 ASM = "swcgeom.transforms.branch_tree.BranchTreeAssembler"
 
 
+def _measures(ctx, col):
+    """Two construct rules over the resampling code (zero expected):
+    R-CHORD    the spacing bounds steps of ARC length: it is never compared with a chord (straight_line_distance / the norm of last - first point) to decide how many points a
+               branch gets -- a hairpin has a short chord and a long path;
+    R-BUFDTYPE interpolated positions / radii are stored into a floating buffer: a buffer allocated with the input's dtype (`dtype=xyzr.dtype`, `*_like(xyzr)`) truncates them
+               for an integer-typed branch."""
+    RES = ("swcgeom.transforms.branch", "swcgeom.transforms.tree", "swcgeom.transforms.branch_tree")
+    col.rule("R-CHORD", "the resampling spacing is compared with arc lengths only: no comparison of the spacing (`self.distance` / `distance`) with a chord (straight_line_distance(), "
+             "norm of end - start) decides the number of points of a branch; zero expected", floor=1)
+    col.rule("R-BUFDTYPE", "interpolated values are stored into a floating buffer: no array that receives np.interp / linspace results is allocated with the dtype of the input "
+             "(`dtype=<input>.dtype`, `*_like(<input>)`); zero expected", floor=1)
+    n_ch = n_bd = n_defs = 0
+    for d in ctx.repo.all_defs():
+        if d.module.name not in RES or d.is_lambda:
+            continue
+        n_defs += 1
+        for c in own_nodes(d):
+            if isinstance(c, ast.Compare):
+                txt = norm_src(c)
+                sides = [c.left] + list(c.comparators)
+                chord = [s for s in sides if "straight_line_distance" in norm_src(s)]
+                spacing = [s for s in sides if norm_src(s) in ("self.distance", "distance", "self.spacing", "spacing")]
+                if chord and spacing:
+                    n_ch += 1
+                    col.bad("R-CHORD", d.qualname, d.loc(c), "the spacing is measured along the branch",
+                            f"`{txt[:80]}` compares the spacing with the straight-line distance of the branch's ends: a curved branch (a hairpin returning next to its furcation) has a chord "
+                            f"below the spacing and a path many times longer -- it loses its interior nodes and its single step exceeds the spacing", stmt="chord", definite=True)
+        params = set(d.params) - {"self", "cls"}
+        allocs = {}
+        for a in own_nodes(d):
+            if isinstance(a, ast.Assign) and len(a.targets) == 1 and isinstance(a.targets[0], ast.Name) and isinstance(a.value, ast.Call):
+                fn = (dotted(a.value.func) or "").rsplit(".", 1)[-1]
+                inherits = None
+                if fn in ("empty_like", "zeros_like", "ones_like", "full_like") and a.value.args and isinstance(a.value.args[0], ast.Name) and a.value.args[0].id in params \
+                        and not any(k.arg == "dtype" for k in a.value.keywords):
+                    inherits = a.value.args[0].id
+                for k in a.value.keywords:
+                    if k.arg == "dtype" and isinstance(k.value, ast.Attribute) and k.value.attr == "dtype" and isinstance(k.value.value, ast.Name) and k.value.value.id in params:
+                        inherits = k.value.value.id
+                if inherits and fn in ("empty", "zeros", "ones", "full", "empty_like", "zeros_like", "ones_like", "full_like"):
+                    allocs[a.targets[0].id] = (a, inherits)
+        for st in own_nodes(d):
+            if isinstance(st, ast.Assign) and any(isinstance(t, ast.Subscript) and isinstance(t.value, ast.Name) and t.value.id in allocs for t in st.targets) \
+                    and any(isinstance(x, ast.Call) and (dotted(x.func) or "").rsplit(".", 1)[-1] in ("interp", "linspace") for x in ast.walk(st.value)):
+                buf = next(t.value.id for t in st.targets if isinstance(t, ast.Subscript) and isinstance(t.value, ast.Name) and t.value.id in allocs)
+                a, inh = allocs.pop(buf)
+                n_bd += 1
+                col.bad("R-BUFDTYPE", d.qualname, d.loc(a), "interpolated values keep their fractional part",
+                        f"`{norm_src(a)[:80]}` takes its dtype from the input `{inh}` and `{norm_src(st)[:60]}` stores interpolated values into it: for a branch given as an integer array the "
+                        f"positions and radii are truncated on assignment -- interior nodes leave the polyline, steps become unequal", stmt="buf-dtype", definite=True)
+    if not n_ch:
+        col.ok("R-CHORD", "swcgeom.transforms", "swcgeom/transforms/branch.py:1", "the spacing is measured along the branch", f"{n_defs} functions scanned, no spacing/chord comparison", stmt="chord")
+    if not n_bd:
+        col.ok("R-BUFDTYPE", "swcgeom.transforms", "swcgeom/transforms/branch.py:1", "interpolated values keep their fractional part", f"{n_defs} functions scanned", stmt="buf-dtype")
+
+
 def run(ctx, col, tier):
     repo = ctx.repo
+    col.guard(_measures, ctx, col)
     from ..rules import normaxis as _normaxis
     _normaxis.run(ctx, col, ('swcgeom.analysis.volume', 'swcgeom.utils.volumetric_object', 'swcgeom.utils.solid_geometry', 'swcgeom.analysis.features', 'swcgeom.analysis.lmeasure', 'swcgeom.analysis.sholl', 'swcgeom.core.tree', 'swcgeom.core.path', 'swcgeom.core.branch', 'swcgeom.transforms.branch', 'swcgeom.transforms.branch_tree'))
     col.rule("R-SHAPE", "every operand of np.concatenate in the resamplers has rank >= 1 (abstract "
